@@ -804,6 +804,9 @@ impl<F: Fam> Ctx<F> {
                 self.meta[dst + 2] = Meta::new(src_vh, live);
             }
         }
+        if *self.sets[dst].set.hasher() != src_vh {
+            fail!(self, [C11], "clone-hasher", "after a set {} the destination's hasher() is {:?}, the source's is {:?}", if from { "clone_from" } else { "clone" }, self.sets[dst].set.hasher(), src_vh);
+        }
         let src_ids: BTreeSet<u32> = self.sets[src].model.values().copied().collect();
         let mut actual: Vec<(u32, u32)> = self.sets[dst].set.iter().map(|k| (k.k(), k.id())).collect();
         actual.sort_unstable();
